@@ -46,6 +46,8 @@ pub enum BuildHow {
     /// `ScannerBuilder::add_patterns(..).build()`; only for single-mode configurations whose
     /// token types are 0..n in order, without lookahead and transitions.
     AddPatterns,
+    /// `Scanner::try_from(Vec<ScannerMode>)` (uncached, another construction path)
+    TryFromVec,
 }
 
 #[derive(Clone, Copy, Debug, PartialEq, Eq, Hash, Serialize, Deserialize)]
